@@ -33,7 +33,7 @@ from .exceptions import XMLSchemaValidationError, XMLSchemaParseError, \
     XMLSchemaCircularityError, XMLSchemaDecodeError, XMLSchemaEncodeError
 from .validation import ValidationContext, EncodeContext, ValidationMixin, DecodeContext
 from .xsdbase import XsdComponent, XsdType
-from .facets import XsdFacet, XsdWhiteSpaceFacet, XsdPatternFacets, \
+from .facets import XsdFacet, XsdWhiteSpaceFacet, XsdPatternFacets, XsdPatternsChain, \
     XsdEnumerationFacets, XsdAssertionFacet, MULTIPLE_FACETS
 
 FacetsValueType = Union[XsdFacet, Callable[[Any], None], list[XsdAssertionFacet]]
@@ -1467,6 +1467,9 @@ class XsdAtomicRestriction(XsdAtomic):
                         context.validation_error(validation, self, err)
                 elif context.patterns is None:
                     context.patterns = self.patterns
+                else:
+                    # Patterns already pushed by a derived restriction: all the steps apply
+                    context.patterns = XsdPatternsChain(context.patterns, self.patterns)
 
         if isinstance(self.base_type, XsdSimpleType):
             base_type = self.base_type
@@ -1508,9 +1511,11 @@ class XsdAtomicRestriction(XsdAtomic):
         elif isinstance(obj, (str, bytes)):
             obj = self.normalize(obj)
 
-        if self.patterns:
-            if context.patterns is None and isinstance(self.primitive_type, XsdUnion):
+        if self.patterns and isinstance(self.primitive_type, XsdUnion):
+            if context.patterns is None:
                 context.patterns = self.patterns
+            else:
+                context.patterns = XsdPatternsChain(context.patterns, self.patterns)
 
         result = base_type.raw_encode(obj, validation, context)
 
